@@ -124,7 +124,8 @@ structure St where
   ka : Nat := 15                  -- `_keepalive_timeout`
   timer : Bool := false           -- `_cleanup_handle is not None`: the keep-alive sweep is scheduled
   mask : Nat := 0                 -- which trace hooks suspend: bit 0 reuseconn, 1 queued_start, 2 queued_end,
-                                  -- 3 create_start, 4 create_end (0 = no traces)
+                                  -- 3 create_start, 4 create_end (0 = no traces); bit 5: the connector was
+                                  -- built with `force_close=True`
 deriving Repr
 
 inductive Label
@@ -458,7 +459,7 @@ the timer is re-armed iff something stays -/
 def cleanup (s : St) : St :=
   let alive := s.idle.filter (usable s)
   let expired := s.idle.filter (fun c => !usable s c)
-  closeMany { s with idle := alive, timer := !alive.isEmpty } expired
+  closeMany { s with idle := alive, timer := !alive.isEmpty && decide (0 < s.ka) } expired
 
 def step (fx : Fixes) (s : St) : Label → St
   | .spawn t =>
@@ -498,9 +499,11 @@ def step (fx : Fixes) (s : St) : Label → St
         if s.closed then s else
         let s := releaseAcquired s x.key (.conn c)
         -- a connection that was lost while in use has `protocol.should_close`: it is closed, not pooled
-        if pool && connOpen s c then
+        -- ... and a `force_close=True` connector never pools
+        if pool && connOpen s c && !s.mask.testBit 5 then
           -- `_conns[key].append((protocol, monotonic()))`; the keep-alive sweep is scheduled if it is not
-          { s with idle := s.idle ++ [c], timer := true,
+          -- (`helpers.weakref_handle` returns no handle for a timeout of 0)
+          { s with idle := s.idle ++ [c], timer := s.timer || decide (0 < s.ka),
                    conns := s.conns.modify c (fun y => { y with usedAt := s.now }) }
         else closeConn s c
       | _ => s
